@@ -141,6 +141,15 @@ func Run(target string, data []byte) (res *Result) {
 		}
 		if err == nil {
 			ok.Decoded = true
+			// differential: an independent strict parse of the same bytes
+			switch refPid, st := refStreamHeader(data); st {
+			case "overrun":
+				return viol("accepts-malformed/stream-header", "header reader accepted a header whose protocol-id field runs past the end of the header body (decoded protocol id %q)", hdr.GetProtocolId())
+			case "ok":
+				if refPid != hdr.GetProtocolId() {
+					return viol("differs-from-reference/stream-header", "header reader decoded protocol id %q, the reference parse gives %q", hdr.GetProtocolId(), refPid)
+				}
+			}
 			if protocol.ID(hdr.GetProtocolId()).Validate() != nil {
 				// a header without a valid protocol id is rejected by the caller; it has no canonical re-encoding
 				return ok
@@ -401,7 +410,9 @@ func Seeds(target string) [][]byte {
 		valid = append(valid, transport_controller.VerifMarshalStreamEstablishHeader(transport_controller.NewStreamEstablish("bifrost/echo")),
 			append(transport_controller.VerifMarshalStreamEstablishHeader(transport_controller.NewStreamEstablish("p")), 1, 2, 3),
 			append([]byte{0x85}, transport_controller.VerifMarshalStreamEstablishHeader(transport_controller.NewStreamEstablish("big"))...),
-			append(uv(100000), make([]byte, 12)...), append(uv(100001), make([]byte, 12)...), append(uv(100002), make([]byte, 12)...))
+			append(uv(100000), make([]byte, 12)...), append(uv(100001), make([]byte, 12)...), append(uv(100002), make([]byte, 12)...),
+			// consistent outer length, inner string length overruns the body
+			[]byte{0x07, 0x0a, 0x14, 'v', 'e', 'r', 'i', 'f'}, []byte{0x03, 0x0a, 0x7f, 'x', 1, 2, 3})
 	case "packet-conn", "packet-session":
 		h := &hash.Hash{HashType: 1, Hash: bytes.Repeat([]byte{7}, 32)}
 		hb, _ := h.MarshalVT()
@@ -483,6 +494,11 @@ func Seeds(target string) [][]byte {
 			id := append([]byte{0x00, byte(len(km))}, km...)
 			valid = append(valid, id, []byte(base58.Encode(id)))
 		}
+		for _, dl := range []uint64{1 << 31, 1<<63 - 11, 1<<63 - 1, ^uint64(0)} {
+			km := append([]byte{0x08, 0x01, 0x12}, uv(dl)...)
+			id := append([]byte{0x00, byte(len(km))}, km...)
+			valid = append(valid, id, []byte(base58.Encode(id)))
+		}
 	case "floodsub-stream":
 		valid = append(valid, floodsubStreamSeeds()...)
 	case "keys":
@@ -492,6 +508,9 @@ func Seeds(target string) [][]byte {
 			valid = append(valid, append(append([]byte{0x08}, uv(kt)...), append([]byte{0x12, 0x20}, rawPub...)...),
 				append(append([]byte{0x08}, uv(kt)...), append([]byte{0x12, 0x40}, rawPriv...)...))
 		}
+		for _, dl := range []uint64{1 << 31, 1 << 32, 1<<63 - 11, 1<<63 - 1, 1 << 63, ^uint64(0)} {
+			valid = append(valid, append([]byte{0x08, 0x01, 0x12}, uv(dl)...), append(append([]byte{0x08, 0x01, 0x12}, uv(dl)...), rawPub...))
+		}
 		pb, _ := crypto.MarshalPublicKey(k.GetPublic())
 		kb, _ := crypto.MarshalPrivateKey(k)
 		pp, _ := keypem.MarshalPrivKeyPem(k)
@@ -499,4 +518,59 @@ func Seeds(target string) [][]byte {
 		valid = append(valid, pb, kb, pp, pubp)
 	}
 	return append(valid, hostile...)
+}
+
+// refStreamHeader is an independent parse of a stream establish header: uvarint length, then a protobuf message whose
+// field 1 (length-delimited) is the protocol id. Status "ok": well-formed with fields of wire types 0, 1, 2, 5 only;
+// "overrun": the protocol-id field announces more bytes than the body holds; "other": anything the reference does not
+// judge (groups, malformed tags, ...).
+func refStreamHeader(data []byte) (pid string, status string) {
+	l, n := binary.Uvarint(data)
+	if n <= 0 || l == 0 || uint64(len(data)-n) < l {
+		return "", "other"
+	}
+	body := data[n : n+int(l)]
+	for len(body) > 0 {
+		tag, tn := binary.Uvarint(body)
+		if tn <= 0 || tag>>3 == 0 || tag>>3 > 1<<29-1 {
+			return "", "other"
+		}
+		body = body[tn:]
+		switch tag & 7 {
+		case 0:
+			_, vn := binary.Uvarint(body)
+			if vn <= 0 {
+				return "", "other"
+			}
+			body = body[vn:]
+		case 1:
+			if len(body) < 8 {
+				return "", "other"
+			}
+			body = body[8:]
+		case 5:
+			if len(body) < 4 {
+				return "", "other"
+			}
+			body = body[4:]
+		case 2:
+			fl, fn := binary.Uvarint(body)
+			if fn <= 0 {
+				return "", "other"
+			}
+			if uint64(len(body)-fn) < fl {
+				if tag>>3 == 1 {
+					return "", "overrun"
+				}
+				return "", "other"
+			}
+			if tag>>3 == 1 {
+				pid = string(body[fn : fn+int(fl)])
+			}
+			body = body[fn+int(fl):]
+		default:
+			return "", "other"
+		}
+	}
+	return pid, "ok"
 }
